@@ -16,7 +16,7 @@ RULE = ("each case: one scenario (two-body chain with revolute + body-body joint
         "distinct = scenario + solver + k; non-trivial = 0 < k < N and the state at k differs from the initial state")
 ASSUMPTIONS = ["solver tolerances 1e-10; trajectories must agree within 1e-6*(1+|q|) over all common steps (restart changes only warm starts of the iterations)",
                "a state reached by a solver that does not enforce position- and velocity-level constraints together (Moreau, BackwardEuler, ScipyIVP) is re-initialised with compute_consistent_initial_conditions=False, otherwise with the default options",
-               "a Rattle state in which a contact is open by less than assembly's closing tolerance (1e-8) and still approaching is re-initialised without the consistency assertions as well (assembly would call it 'g_N_dot0' inconsistent; counted)",
+               "a Rattle state in which a contact is within assembly's closing tolerance (|g_N| <= 1e-8) and still approaching is re-initialised without the consistency assertions as well (assembly would call it 'g_N_dot0' inconsistent; counted)",
                "model identity: body-fixed joint point / axes, revolute angle at probe states, fixed distance, contact radius and friction data must be unchanged (1e-9)"]
 REQUIRED_MONITORS = ["restart", "trajectory", "model_identity"]
 META = {
@@ -253,17 +253,25 @@ def run_case(spec, ctx):
                 except AssertionError as e0:
                     # assembly counts a contact as closed when |g_N| <= 1e-8; a state reached just before an impact (gap open by
                     # less than that, still approaching) is a legitimate state of the run but fails its g_N_dot0 assertion. The
-                    # restart is then done the way the other solvers' states are: without the consistency assertions.
+                    # restart is then done the way the other solvers' states are: without the consistency assertions. The same
+                    # holds for a gap of exactly 0.0 (or closed within the tolerance) whose stored velocity still approaches: RATTLE
+                    # stores such states for slowly settling balls with restitution, assembly cannot start from an impact.
                     gN_ = S1.g_N(t_k, q_k) if S1.nla_N else np.zeros(0)
-                    band = S1.nla_N and np.any((gN_ > 0) & (gN_ <= 1e-8)) and "g_N_dot0" in str(e0) and "options" not in kw
+                    band = S1.nla_N and np.any(np.abs(gN_) <= 1e-8) and "g_N_dot0" in str(e0) and "options" not in kw
                     if not band:
                         raise
                     ctx.cls("restart:open_contact_within_assembly_tolerance(no_cic)")
                     S2 = S1.deepcopy()
                     S2.set_new_initial_state(q_k.copy(), u_k.copy(), t0=t_k, options=SolverOptions(compute_consistent_initial_conditions=False))
             except Exception as e:
+                wit = {}
+                if S1.nla_N:
+                    try:
+                        wit = {"g_N_at_state": S1.g_N(t_k, q_k), "g_N_dot_at_state": S1.g_N_dot(t_k, q_k, u_k)}
+                    except Exception:
+                        pass
                 ctx.violation("System.set_new_initial_state", "re-initialising a copy of the system with a state reached by the solver raises",
-                              {**exk, "error": f"{type(e).__name__}: {e}"[:300]}, key=_kf_restart(sc, det, e))
+                              {**exk, **wit, "error": f"{type(e).__name__}: {e}"[:300]}, key=_kf_restart(sc, det, e))
                 continue
             # ---- model identity
             ctx.mon("model_identity")
